@@ -78,7 +78,7 @@ man = {
    "enable": "rustflags in /verif/harness/.cargo/config.toml: --cfg slotted_egraphs_verif --check-cfg cfg(slotted_egraphs_verif); the harness depends on /repo by path and patches slotted-egraphs-derive to /repo/slotted-egraphs-derive",
    "baseline_off_cmd": "cd /repo && cargo test --workspace --no-fail-fast --offline",
    "source_commits": ["ec9eabe"],
-   "fix_commits": ["5396f70", "b035feb", "2ddbd7f", "253cc2c", "9ab3fcf", "352017a", "2a27235", "75e3c3a", "5afd426", "640e671", "3e314d3", "4dcce54", "d4651f6", "1e93cc9", "b27661e", "b251537", "cfcbc3c", "0360727", "c3020f8", "2a38624", "2db9378", "9af976a", "429dfd3", "20cc4b9"],
+   "fix_commits": ["9badd07", "5396f70", "b035feb", "2ddbd7f", "253cc2c", "9ab3fcf", "352017a", "2a27235", "75e3c3a", "5afd426", "640e671", "3e314d3", "4dcce54", "d4651f6", "1e93cc9", "b27661e", "b251537", "cfcbc3c", "0360727", "c3020f8", "2a38624", "2db9378", "9af976a", "429dfd3", "20cc4b9"],
    "add_only": True,
  },
  "engines": [
